@@ -96,3 +96,129 @@ Example C08_vss_bad_point_then_share_fails :
              [CStart SeedShort; CBroadcast 0 (MVec (VBad 1)); CPrivate 0 (MShare (SVal 5)); CEnd])
   = [ROk; ROk; ROk; RFailure].
 Proof. vm_compute. reflexivity. Qed.
+
+(* ------------------------------------------------------------------ *)
+(* Feldman-VSS-Qual, an honest participant p that is not the dealer d   *)
+(* ------------------------------------------------------------------ *)
+From V Require Import Spec.DkgQualFacts Proofs.DkgQualRefine Proofs.DkgAgree Proofs.DkgQualFair Proofs.DkgQualEvents.
+
+(* L is ANY list of inputs processed between Start and End (broadcasts and private messages of
+   any origin and content in any interleaving, the timeouts, ForceDisqualify); [annot L] tags
+   every input with its phase; the facts (vecF, complained, ansF, nkeys ...) are those of
+   Spec/DkgQualFacts.v.  [end_result] is what End returns after L. *)
+
+(* a dealer whose vector is missing at the shares timeout (or late), malformed, who has more
+   than t complaints at the complaints timeout, or a complaint left unanswered or answered
+   with an unreadable / wrong share: End returns dkg-failure *)
+Theorem C08_bad_dealer_disqualified :
+  forall cf d L, (c_my cf < c_n cf)%nat -> (d < c_n cf)%nat -> c_my cf <> d ->
+    ph L = 2%nat -> bad_dealing cf d (annot L) -> end_result cf d L = RFailure.
+Proof. intros cf d L A B C. exact (bad_dealer_disqualified cf d A B C L). Qed.
+Print Assumptions C08_bad_dealer_disqualified.
+
+(* an honest dealer with polynomial a0 :: al (non-zero a0, non-zero shares): whatever the
+   other participants send and in whatever order, as long as at most t participants complain
+   (tooMany = false) and the dealer's answers arrive before End (unansweredF = false), End
+   returns the dealer's keys *)
+Theorem C08_honest_dealer_never_disqualified :
+  forall cf d L a0 al, (c_my cf < c_n cf)%nat -> (d < c_n cf)%nat -> c_my cf <> d ->
+    ph L = 2%nat -> honest_dealer_log cf d (a0 :: al) (annot L) -> a0 <> 0 ->
+    tooMany cf d (annot L) = false -> unansweredF cf d (annot L) = false ->
+    end_result cf d L = RKeys (peval (a0 :: al) (Z.of_nat (c_my cf) + 1)) a0 (pubkeys cf (a0 :: al)).
+Proof. intros cf d L a0 al A B C. exact (honest_dealer_never_disqualified cf d A B C L a0 al). Qed.
+Print Assumptions C08_honest_dealer_never_disqualified.
+
+(* ... and no Disqualify(dealer) callback is ever made while the dealer is not disqualified *)
+Theorem C08_no_disqualify_callback_without_verdict :
+  forall cf d L, q_disq (irun cf d q_init L) = false -> ~ In (EvDisq d) (irun_events cf d q_init L).
+Proof. intros cf d L. exact (no_disq_event cf d L q_init). Qed.
+Print Assumptions C08_no_disqualify_callback_without_verdict.
+
+(* honest_never_flagged, dealer side: under the same hypotheses and with the dealer's messages
+   on time and not repeated (its private message and its vector are its first ones and arrive
+   before the shares timeout, no answer is sent twice), no Disqualify and no FlagMisbehavior
+   callback ever names the dealer *)
+Theorem C08_honest_dealer_never_flagged :
+  forall cf d L a, (c_my cf < c_n cf)%nat -> (d < c_n cf)%nat -> c_my cf <> d ->
+    ph L = 2%nat -> honest_dealer_log cf d a (annot L) ->
+    tooMany cf d (annot L) = false -> unansweredF cf d (annot L) = false -> dealer_on_time cf d L ->
+    ~ In (EvDisq d) (irun_events cf d q_init L) /\ ~ In (EvFlag d) (irun_events cf d q_init L).
+Proof. intros cf d L a A B C. exact (honest_dealer_never_blamed cf d A B C L a). Qed.
+Print Assumptions C08_honest_dealer_never_flagged.
+
+(* callbacks only ever name the origin of the message being processed or the dealer *)
+Theorem C08_callbacks_name_origin_or_dealer :
+  forall cf d q x, Forall (ev_ok d (origin d x)) (snd (istep cf d q x)).
+Proof. exact istep_events_target. Qed.
+Print Assumptions C08_callbacks_name_origin_or_dealer.
+
+(* honest_never_flagged, complainer side: an honest participant j (not the dealer) whose only
+   message is one valid complaint delivered before the complaints timeout is never named in a
+   Disqualify or FlagMisbehavior callback, whatever everybody else sends *)
+Theorem C08_honest_complainer_never_flagged :
+  forall cf d L1 L2 j, (c_my cf < c_n cf)%nat -> (d < c_n cf)%nat -> c_my cf <> d ->
+    j <> d -> j <> c_my cf -> (j < c_n cf)%nat ->
+    (forall x, In x L1 -> origin d x <> j) -> (forall x, In x L2 -> origin d x <> j) ->
+    (ph L1 < 2)%nat ->
+    let L := L1 ++ [IB j (MComplaint (CIdx (Z.of_nat d)))] ++ L2 in
+    ~ In (EvDisq j) (irun_events cf d q_init L) /\ ~ In (EvFlag j) (irun_events cf d q_init L).
+Proof. intros cf d L1 L2 j A B C. exact (honest_complainer_not_blamed cf d A B C L1 L2 j). Qed.
+Print Assumptions C08_honest_complainer_never_flagged.
+
+(* an honest participant that sends nothing (no complaint) is never named *)
+Theorem C08_silent_participant_never_flagged :
+  forall cf d L j, j <> d -> (forall x, In x L -> origin d x <> j) ->
+    ~ In (EvDisq j) (irun_events cf d q_init L) /\ ~ In (EvFlag j) (irun_events cf d q_init L).
+Proof. intros cf d L j. exact (events_only_about_origin cf d L q_init j). Qed.
+Print Assumptions C08_silent_participant_never_flagged.
+
+(* non-vacuity of the honest-dealer hypotheses (n = 3, t = 1, p = 1, d = 0, P = 5 + 3X): the
+   vector, the share, a Byzantine complaint of participant 2 and its answer *)
+Example C08_honest_dealer_nonvacuous :
+  let cf := mkCfg 3 1 1 in
+  let L := [IB 2 (MComplaint (CIdx 0)); IP 0 (MShare (SVal 11)); IB 0 (MVec (VOk [5; 3]));
+            ITimeout; IB 0 (MAnswer (AVal 2 14)); ITimeout] in
+  ph L = 2%nat /\ tooMany cf 0 (annot L) = false /\ unansweredF cf 0 (annot L) = false /\
+  end_result cf 0 L = RKeys 11 5 [8; 11; 14].
+Proof. vm_compute. repeat split. Qed.
+
+Example C08_bad_dealer_nonvacuous :
+  let cf := mkCfg 3 1 1 in
+  end_result cf 0 [IP 0 (MShare (SVal 12)); IB 0 (MVec (VOk [5; 3])); ITimeout; ITimeout] = RFailure /\
+  end_result cf 0 [IP 0 (MShare (SVal 11)); ITimeout; IB 0 (MVec (VOk [5; 3])); ITimeout] = RFailure.
+Proof. vm_compute. split; reflexivity. Qed.
+
+(* the honest-dealer hypotheses are satisfiable (same run as above) *)
+Example C08_honest_dealer_log_nonvacuous :
+  let cf := mkCfg 3 1 1 in
+  honest_dealer_log cf 0 [5; 3]
+    (annot [IB 2 (MComplaint (CIdx 0)); IP 0 (MShare (SVal 11)); IB 0 (MVec (VOk [5; 3]));
+            ITimeout; IB 0 (MAnswer (AVal 2 14)); ITimeout]).
+Proof.
+  cbn zeta. unfold honest_dealer_log. split; [vm_compute; reflexivity|].
+  split.
+  { intros k m Hin. cbn in Hin. unfold honest_bcast.
+    repeat (destruct Hin as [E|Hin]; [inversion E; subst; clear E|]); try contradiction.
+    - left. split; reflexivity.
+    - right. exists 2%nat. split; [cbn; lia|]. vm_compute. reflexivity. }
+  split; [cbn; auto|].
+  split.
+  { intros k m Hin. cbn in Hin.
+    repeat (destruct Hin as [E|Hin]; [inversion E; subst; clear E|]); try contradiction.
+    split; [vm_compute; reflexivity|reflexivity]. }
+  split; [exists 0%nat; cbn; right; left; vm_compute; reflexivity|].
+  split; [reflexivity|].
+  intros c Hc. cbn in Hc. destruct c as [|[|[|c]]]; try lia; vm_compute; reflexivity.
+Qed.
+
+Example C08_dealer_on_time_nonvacuous :
+  let cf := mkCfg 3 1 1 in
+  dealer_on_time cf 0 [IB 2 (MComplaint (CIdx 0)); IP 0 (MShare (SVal 11)); IB 0 (MVec (VOk [5; 3]));
+                       ITimeout; IB 0 (MAnswer (AVal 2 14)); ITimeout].
+Proof.
+  cbn zeta. unfold dealer_on_time.
+  split; [|split; [|split]]; intros L1 ? ? ? E || intros L1 ? ? E;
+    repeat (destruct L1 as [|? L1]; cbn in E; [inversion E; subst; clear E|inversion E; subst; clear E]);
+    try (exfalso; match goal with H : [] = _ ++ _ :: _ |- _ => destruct L1; discriminate H end);
+    try (vm_compute; repeat split; try lia; try discriminate; intro Hm; discriminate Hm).
+Qed.
